@@ -27,3 +27,8 @@ package types
 //@   trusted
 //@   returns err
 //@ end
+//@ func ValidateRequestContextUpdating
+//@   property C08, C13
+//@   trusted
+//@   returns err
+//@ end
